@@ -98,6 +98,17 @@ tx collateral_and_reference_overlap(quantity: Int) {
     output { to: Receiver, amount: Ada(quantity), }
     output { to: Sender, amount: source - Ada(quantity) - fees, }
 }
+tx two_script_inputs(quantity: Int) {
+    input first { from: Sender, min_amount: Ada(quantity), redeemer: 1, }
+    input second { from: Sender, min_amount: Ada(quantity) + fees, redeemer: 2, }
+    output { to: Sender, amount: first + second - fees, }
+}
+tx three_script_inputs(quantity: Int) {
+    input first { from: Sender, min_amount: Ada(quantity), redeemer: 1, }
+    input second { from: Sender, min_amount: Ada(quantity), redeemer: 2, }
+    input third { from: Sender, min_amount: Ada(quantity) + fees, redeemer: 3, }
+    output { to: Sender, amount: first + second + third - fees, }
+}
 tx with_mint(quantity: Int) {
     input source { from: Sender, min_amount: Ada(2000000) + fees, }
     mint { amount: AnyAsset(0x6b9c456aa650cb808a9ab54326e039d5235ed69f069c9664a8fe5b69, "ABC", quantity), redeemer: (), }
@@ -229,6 +240,42 @@ fn main() {
             }
         }
     }
+    // ---- C08 through the resolver: several script inputs whose queries overlap (same party) each guard their OWN UTxO: as many
+    // spend redeemers as blocks, every redeemer value exactly once, on distinct inputs of the body (or resolution fails).
+    // BOUND: 2 templates x stores of 2..4 UTxOs.
+    let mut c08_cases = 0u64;
+    for (name, blocks) in [("two_script_inputs", 2usize), ("three_script_inputs", 3)] {
+        for n_utxos in 2..=4u32 {
+            c08_cases += 1;
+            let input = format!("tx={name} ({blocks} input blocks of the same party, redeemers 1..{blocks}) store={n_utxos} UTxOs of the sender");
+            let tx = lower(SRC, name);
+            let args: BTreeMap<String, ArgValue> = BTreeMap::from([
+                ("quantity".to_string(), ArgValue::Int(3_000_000)),
+                ("sender".to_string(), ArgValue::Address(addr_bytes(SENDER))),
+                ("receiver".to_string(), ArgValue::Address(addr_bytes(RECEIVER))),
+            ]);
+            let store = FixedStore((0..n_utxos).map(|i| lovelace_utxo(SENDER, 50_000_000_000, i)).collect());
+            let mut c = compiler(44, 155381, None);
+            vf_pipeline::begin_case(format!("script inputs: {input}"));
+            let r = pollster::block_on(tx3_resolver::resolve_tx(AnyTir::V1Beta0(tx), &args, &mut c, &store, 10));
+            let x = match r { Ok(x) => x, Err(e) => { println!("VERIF-NOTE {input}: did not resolve: {}", e.to_string().chars().take(80).collect::<String>()); continue; } };
+            let Ok(dec): Result<primitives::Tx, _> = tx3_cardano::pallas::codec::minicbor::decode(&x.payload) else { continue; };
+            let n_inputs = dec.transaction_body.inputs.iter().count();
+            let mut spends: Vec<(u32, String)> = vec![];
+            if let Some(reds) = dec.transaction_witness_set.redeemer.as_deref() {
+                if let primitives::Redeemers::Map(m) = reds {
+                    for (k, v) in m.iter() { if k.tag == primitives::RedeemerTag::Spend { spends.push((k.index, format!("{:?}", v.data))); } }
+                }
+            }
+            let mut values: Vec<String> = spends.iter().map(|(_, d)| d.clone()).collect();
+            values.sort(); values.dedup();
+            let ok = n_inputs == blocks && spends.len() == blocks && values.len() == blocks && spends.iter().all(|(i, _)| (*i as usize) < n_inputs);
+            if !ok {
+                witness("c08_pipeline/resolve_tx#redeemers", "resolve_tx", format!("{input} class=script-inputs-sharing-a-utxo"), format!("{n_inputs} input(s) in the body, spend redeemers at indices {:?} ({} distinct values)", spends.iter().map(|(i, _)| *i).collect::<Vec<_>>(), values.len()), &format!("{blocks} inputs, {blocks} spend redeemers with distinct values on distinct inputs"));
+            }
+        }
+    }
+    println!("VERIF-CASES fn=resolve_tx n={c08_cases}");
     println!("VERIF-CASES fn=compile n={cases}");
     println!("VERIF-CASES fn=entry_point n={cases}");
     println!("VERIF-CASES fn=compile_tx_body n={cases}");
